@@ -97,6 +97,27 @@ func devCmd(argv []string) {
 		}
 		frs = append(frs, fr)
 	}
+	if *only == "" || strings.Contains("theorem", *only) {
+		inDev := func(tag string) bool { return true }
+		if tf := P.TheoremObligations(inDev); tf != nil {
+			// only the theorems of the packages asked for
+			var keep []*Obligation
+			for _, o := range tf.Obls {
+				th := P.theorems[o.Func]
+				for _, pat := range strings.Split(*pkgs, ",") {
+					q := strings.TrimSuffix(strings.TrimPrefix(pat, "./"), "/...")
+					if th != nil && strings.HasSuffix(th.Pkg, "/"+q) {
+						keep = append(keep, o)
+					}
+				}
+			}
+			if len(keep) > 0 {
+				tf.Obls = keep
+				tf.Contract = &Contract{Target: "theorems"}
+				frs = append(frs, tf)
+			}
+		}
+	}
 	prelude := P.reg.Prelude()
 	pick := func(o *Obligation) bool {
 		if *tagf == "" {
